@@ -317,6 +317,8 @@ class StmtMixin:
         if attr in prot and self.cur is not None and not self.cur.extra.get("constructor"):
             lock = self.hget(st, prot[attr], obj.t)
             held = z3.Or(*[h == lock for h in st.held]) if st.held else z3.BoolVal(False)
+            if z3.is_true(z3.simplify(held)):
+                return
             self.emit(st, "token@%s.%s" % (obj.h, attr), held, "token")
 
     # ------------------------------------------------------------------ if
